@@ -3,6 +3,8 @@ import HpxVerif.Lemmas.F64Lemmas
 import HpxVerif.Lemmas.BitsLemmas
 import HpxVerif.Props.C18
 
+set_option autoImplicit false   -- an unknown identifier in a statement is an error, never a new variable
+
 /-!
 # C02 — NESTED cell numbers are hierarchical across depths (exact prefix property)
 
